@@ -244,6 +244,20 @@ class RF:
     def const_value(self) -> Fraction:
         return self.n.const_value() / self.d.const_value()
 
+    def as_constant(self):
+        """Fraction c if num == c * den (a constant in disguise: no GCD normalisation is done), else None."""
+        if self.is_const():
+            return self.const_value()
+        if self.n.is_zero():
+            return Fraction(0)
+        m = next(iter(self.d.t))
+        if m not in self.n.t:
+            return None
+        c = self.n.t[m] / self.d.t[m]
+        if self.n == self.d * Poly.const(c):
+            return c
+        return None
+
     def is_one(self):
         return self.equals(RF.const(1))
 
